@@ -803,6 +803,44 @@ func TestVerifC04(t *testing.T) {
 
 	files := vfC04Files()
 	var corpusChild []vfC04BatchCase
+	// ------------------------------------------------ 0. canary: the first file's truncations in a child process — the very first
+	// thing that touches a damaged snapshot (before the corpus, before every in-process sweep)
+	{
+		data := files[0].bytes()
+		var ins [][]byte
+		for k := 0; k <= len(data); k++ {
+			ins = append(ins, data[:k])
+		}
+		for pos := 9; pos < len(data); pos += 3 {
+			g := append([]byte(nil), data...)
+			g[pos] ^= 0x55
+			if _, risky := vfc20.Classify(g); !risky {
+				ins = append(ins, g)
+			}
+		}
+		mark("canary")
+		at, how, toks := vfC04ParseCanary(ins)
+		s.Count("canary_inputs")
+		for i, tk := range toks {
+			if strings.HasPrefix(tk, "x") {
+				s.Count("viol_parser-no-terminal")
+				s.Violate("parser-no-terminal", "rdb.ParseRdb closed its channel without a Done or Err entry ("+tk+"): sendRdb's distributor takes that for a normal end",
+					map[string]interface{}{"scenario": "canary-parse", "rdb": vfutil.Hex(ins[i])})
+				break
+			}
+		}
+		if at >= 0 {
+			s.Count("viol_crash")
+			in := []byte{}
+			if at < len(ins) {
+				in = ins[at]
+			}
+			s.Violate("crash", "damaged snapshot: the parser does not return an error, the PROCESS dies: "+how,
+				map[string]interface{}{"scenario": "canary-parse", "rdb": vfutil.Hex(in)})
+			return // every in-process sweep below would kill the harness itself
+		}
+	}
+
 	// ------------------------------------------------ corpus: explicit witnesses
 	for _, l := range vfutil.Corpus("C04") {
 		parts := strings.SplitN(l, " ", 3)
@@ -880,43 +918,6 @@ func TestVerifC04(t *testing.T) {
 				s.Count("viol_incomplete-checkpointed")
 				s.Violate("incomplete-checkpointed", fmt.Sprintf("corpus-sendchild: keys %q not applied, err=%v cp=%v", r.Missing, r.Err, r.Cp), rp)
 			}
-		}
-	}
-
-	// ------------------------------------------------ 0. canary: the first file's truncations in a child process
-	{
-		data := files[0].bytes()
-		var ins [][]byte
-		for k := 0; k <= len(data); k++ {
-			ins = append(ins, data[:k])
-		}
-		for pos := 9; pos < len(data); pos += 3 {
-			g := append([]byte(nil), data...)
-			g[pos] ^= 0x55
-			if _, risky := vfc20.Classify(g); !risky {
-				ins = append(ins, g)
-			}
-		}
-		mark("canary")
-		at, how, toks := vfC04ParseCanary(ins)
-		s.Count("canary_inputs")
-		for i, tk := range toks {
-			if strings.HasPrefix(tk, "x") {
-				s.Count("viol_parser-no-terminal")
-				s.Violate("parser-no-terminal", "rdb.ParseRdb closed its channel without a Done or Err entry ("+tk+"): sendRdb's distributor takes that for a normal end",
-					map[string]interface{}{"scenario": "canary-parse", "rdb": vfutil.Hex(ins[i])})
-				break
-			}
-		}
-		if at >= 0 {
-			s.Count("viol_crash")
-			in := []byte{}
-			if at < len(ins) {
-				in = ins[at]
-			}
-			s.Violate("crash", "damaged snapshot: the parser does not return an error, the PROCESS dies: "+how,
-				map[string]interface{}{"scenario": "canary-parse", "rdb": vfutil.Hex(in)})
-			return // every in-process sweep below would kill the harness itself
 		}
 	}
 
